@@ -9,7 +9,8 @@
 (*                                                                                  *)
 (* A work item is a record [s, c, a, e, payload, imports, ext] where s is 4 LE       *)
 (* bytes, a 8 LE bytes, c 32 bytes, e < 2^16, imports a sequence (only its length     *)
-(* matters), ext the sequence of declared extrinsic lengths.  H(w_y) and M(s) are    *)
+(* matters), ext the sequence of declared extrinsic lengths (one entry per spec;   *)
+(* a spec that occurs twice is counted and summed twice).  H(w_y) and M(s) are    *)
 (* hash TERMS (HashTerm / MerkleTree); the driver evaluates them with real BLAKE2b.   *)
 EXTENDS MerkleTree
 
@@ -30,15 +31,25 @@ Segment(prefix) == Cat(<<Lit(prefix), RepLit(0, SegLen - Len(prefix))>>)
 ZeroSegment == RepLit(0, SegLen)
 
 \* ---- composition (GP 14.11-14.12): what the report computation does with the refinement outcomes.
-\* outcome class of item j: "ok" (success, exactly the declared number of exports, small output),
-\* "err" (refinement failed, no exports), "count" (success but a wrong number of exports).
-\* Every class contributes exactly w_e segments: the item's own for "ok", zero segments otherwise.
-\* The RESULT of a failed item is only constrained to be an error (the order in which 14.11 tests
-\* oversize / bad exports / refinement error is reconstructed from memory: permissive).
-ItemSegments(w, class, own) == IF class = "ok" THEN own ELSE [k \in 1..w.e |-> ZeroSegment]
+\* A scripted outcome of item k is [t, dlen, nret]: result kind, length of the output blob, number of
+\* segments handed back.  Item k FAILS when the refinement failed, or it handed back a number of segments
+\* other than the declared w_e, or its output blob does not fit: dlen + z > W_R where z = |authorizer
+\* output| + the output lengths of the earlier successful items.  Every item contributes exactly w_e
+\* segments: its own when it succeeded, ZERO segments when it failed - also when a failed refinement handed
+\* back exactly w_e segments.  The RESULT of a failed item is only constrained to be an error (the order
+\* in which 14.11 tests oversize / bad exports / refinement error is reconstructed from memory: permissive;
+\* generated sizes stay far from the W_R boundary and failed refinements have empty outputs).
+WR == 49152
+RECURSIVE FailedFrom(_, _, _, _)
+FailedFrom(ws, outs, k, z) ==
+  IF k > Len(ws) THEN <<>>
+  ELSE LET f == outs[k].t # "ok" \/ outs[k].nret # ws[k].e \/ outs[k].dlen + z > WR
+       IN <<f>> \o FailedFrom(ws, outs, k + 1, IF f THEN z ELSE z + outs[k].dlen)
+FailedItems(ws, outs, authLen) == FailedFrom(ws, outs, 1, authLen)
+ItemSegments(w, failed, own) == IF failed THEN [k \in 1..w.e |-> ZeroSegment] ELSE own
 RECURSIVE AllSegments(_, _, _, _)
-AllSegments(ws, classes, owns, k) ==
-  IF k > Len(ws) THEN <<>> ELSE ItemSegments(ws[k], classes[k], owns[k]) \o AllSegments(ws, classes, owns, k + 1)
+AllSegments(ws, failed, owns, k) ==
+  IF k > Len(ws) THEN <<>> ELSE ItemSegments(ws[k], failed[k], owns[k]) \o AllSegments(ws, failed, owns, k + 1)
 RECURSIVE OffsetsFrom(_, _, _)
 OffsetsFrom(ws, k, acc) == IF k > Len(ws) THEN <<>> ELSE <<acc>> \o OffsetsFrom(ws, k + 1, acc + ws[k].e)
 ExportOffsets(ws) == OffsetsFrom(ws, 1, 0)
